@@ -23,7 +23,7 @@ LOCKFACTS_GEN = dict(
 CONC_STREAM = dict(
     name='conc', pkg='.', files=['harness/conc/vk_conc_test.go'], test='TestVerifConc$',
     corpus='corpus/conc', new_marker='k new', timeout='20m',
-    env=dict(quick=dict(VERIF_CONC_ENUM=60, VERIF_CONC_RANDOM=150),
+    env=dict(quick=dict(VERIF_CONC_ENUM=150, VERIF_CONC_RANDOM=500),
              thorough=dict(VERIF_CONC_ENUM=400, VERIF_CONC_RANDOM=1500)),
     rule='schedule-forced scenarios over one scope of a provider with scoped A(B), scoped B, a transient, a singleton and a '
          'scoped initializer: corpus of named interleavings, every schedule (up to a budget) of ten 2-3 thread programs, random '
@@ -36,7 +36,7 @@ CONC_STRESS_STREAM = dict(
     name='conc-stress', pkg='.', files=['harness/conc/vk_conc_test.go'], test='TestVerifConcStress$',
     model=False, seeded=True, replayable=False, timeout='20m',
     race=dict(quick=True, thorough=True), fail_on_rc=True,
-    env=dict(quick=dict(VERIF_STRESS_ROUNDS=40), thorough=dict(VERIF_STRESS_ROUNDS=300)),
+    env=dict(quick=dict(VERIF_STRESS_ROUNDS=120), thorough=dict(VERIF_STRESS_ROUNDS=600)),
     rule='free-running stress under the race detector: 12 goroutines x 120 random operations per round',
 )
 
